@@ -478,18 +478,62 @@ def _numbering(ctx: Ctx, model, found, shapes) -> None:
         key = "generate_element_identifiers:running" if wit[1] else "Connection.generate_element_identifiers:counts"
         ctx.violation("R16.4", key, BASE, gei.node,
                       f"Connection.generate_element_identifiers(running={wit[1]}) on elements {wit[0]!r} gives {wit[2]} instead of {wit[3]}")
-    for qual in ("Container.generate_element_identifiers",):
-        fi = model.fi(BASE, qual)
-        ctx.instance("R16.4", f"{qual}: per-type counts start at 1")
-        # fold summary of the counter: i = counts[symbol] + 1; counts[symbol] = i; identifiers[element] = i; counts initialised to 0
-        body = norm(fi.node)
-        inc = any(isinstance(n, (ast.Assign, ast.AnnAssign)) and n.value is not None and norm(n.value) == "counts[symbol] + 1" for n in walk_ordered(fi.node, into_functions=True))
-        store = "counts[symbol] = i" in body and "identifiers[element] = i" in body
-        zero = ": 0 for element in elements}" in body or "counts[symbol] = 0" in body
-        if inc and store and zero:
-            ctx.ok()
-        else:
-            ctx.violation("R16.4", f"{qual}:counts", BASE, fi.node, f"{qual}: per-type identifiers must count 1, 2, … per element symbol")
+    # Container.generate_element_identifiers, interpreted likewise: the container itself is -1; the elements of its
+    # sub-circuits are numbered in traversal order (running: 1..N after the container's own slot; else per type from 1)
+    cge = model.fi(BASE, "Container.generate_element_identifiers")
+
+    class _KContainer:
+        pass
+
+    class _Conn:
+        def __init__(self, els):
+            self.els = els
+
+        def get_elements(self, recursive=True, **k):
+            return list(self.els)
+
+    class _SelfC(_KContainer):
+        def __init__(self, subs):
+            self.subs = subs
+
+        def get_symbol(self):
+            return "T"
+
+        def get_subcircuits(self):
+            return dict(self.subs)
+
+        def __repr__(self):
+            return "self"
+    stubs_c = module_globals(ctx.repo.modules[BASE].tree, {"_is_boolean": lambda x: isinstance(x, bool), "Container": _KContainer})
+    stubs_c["Container"] = _KContainer
+    witc = None
+    n_wc = 0
+    for n_ in range(0, 4):
+        for syms in product("RCT", repeat=n_):
+            for split in range(0, n_ + 1):
+                els = [_El(s_, i) for i, s_ in enumerate(syms)]
+                subs = {"X": _Conn(els[:split]), "Y": (_Conn(els[split:]) if els[split:] else None)}
+                for running in (True, False):
+                    n_wc += 1
+                    me = _SelfC(subs)
+                    try:
+                        got = Mini(stubs_c).call_function(cge.node, {"self": me, "running": running})
+                        got = {repr(k): v for k, v in got.items()}
+                    except InterpRaise as e:
+                        got = e.kind
+                    want = {"self": -1}
+                    seen_c: Dict[str, int] = {}
+                    for i, e_ in enumerate(els):
+                        seen_c[e_.sym] = seen_c.get(e_.sym, 0) + 1
+                        want[repr(e_)] = (i + 1) if running else seen_c[e_.sym]
+                    if got != want and witc is None:
+                        witc = ("".join(syms), split, running, got, want)
+    ctx.instance("R16.4", f"Container.generate_element_identifiers on {n_wc} (sub-circuit contents, running) inputs")
+    if witc is None:
+        ctx.ok()
+    else:
+        ctx.violation("R16.4", "Container.generate_element_identifiers:counts", BASE, cge.node,
+                      f"Container.generate_element_identifiers(running={witc[2]}) with sub-circuit elements {witc[0]!r} (first {witc[1]} in X) gives {witc[3]} instead of {witc[4]}")
     vc = model.fi(FIT, "validate_circuit")
     fc = model.fi(FIT, "fit_circuit")
     ctx.instance("R16.4", "validate_circuit rejects duplicate names; fit_circuit calls it before any work")
